@@ -38,29 +38,364 @@ type kcFact struct {
 
 // kcFacts lists the atomic conditions guaranteed at target: for a gate reached
 // on its true branch every &&-conjunct holds, on its false branch every
-// ||-disjunct fails; leading ! is stripped (flipping the value).
+// ||-disjunct fails; leading ! is stripped (flipping the value). Conditions are
+// first made helper-transparent (kcExpandCond): a call of a pure boolean helper
+// is replaced by its return expression in the caller's terms and a plain
+// single-definition boolean local by its definition. Every comparison is also
+// listed with its operands swapped, so matchers need only one orientation.
 func kcFacts(g *engine.Graph, target *engine.Site) []kcFact {
+	return kcFactsOfGates(g.Fn, g.Gates(target))
+}
+
+func kcFactsOfGates(fn *engine.Fn, gates []engine.Gate) []kcFact {
 	var out []kcFact
-	for _, gt := range g.Gates(target) {
-		var atoms []ast.Expr
-		if gt.OnTrue {
-			atoms = engine.Conjuncts(gt.Cond, token.LAND)
-		} else {
-			atoms = engine.Conjuncts(gt.Cond, token.LOR)
+	for _, gt := range gates {
+		out = append(out, kcSplitFacts(kcExpandCond(fn, gt.Cond, 3), gt.OnTrue)...)
+	}
+	return out
+}
+
+// kcSplitFacts splits a condition known to have value val into atomic facts.
+func kcSplitFacts(e ast.Expr, val bool) []kcFact {
+	e = ast.Unparen(e)
+	if u, ok := e.(*ast.UnaryExpr); ok && u.Op == token.NOT {
+		return kcSplitFacts(u.X, !val)
+	}
+	if b, ok := e.(*ast.BinaryExpr); ok {
+		if (b.Op == token.LAND && val) || (b.Op == token.LOR && !val) {
+			return append(kcSplitFacts(b.X, val), kcSplitFacts(b.Y, val)...)
 		}
-		for _, a := range atoms {
-			v := gt.OnTrue
-			a = ast.Unparen(a)
-			for {
-				u, ok := a.(*ast.UnaryExpr)
-				if !ok || u.Op != token.NOT {
+		switch b.Op {
+		case token.LSS, token.GTR, token.LEQ, token.GEQ, token.EQL, token.NEQ:
+			return []kcFact{{e, val}, {&ast.BinaryExpr{X: b.Y, OpPos: b.OpPos, Op: engine.Flip(b.Op), Y: b.X}, val}}
+		}
+	}
+	return []kcFact{{e, val}}
+}
+
+// kcGates returns the gates of target with helper-transparent conditions.
+func kcGates(g *engine.Graph, target *engine.Site) []engine.Gate {
+	gs := g.Gates(target)
+	out := make([]engine.Gate, len(gs))
+	for i, gt := range gs {
+		out[i] = engine.Gate{Cond: kcExpandCond(g.Fn, gt.Cond, 3), OnTrue: gt.OnTrue, Block: gt.Block}
+	}
+	return out
+}
+
+// kcPlainDef: the defining expression of a local that is defined exactly once
+// by a one-to-one assignment (`x := e`, `var x = e`), never a comma-ok/multi
+// value form.
+func kcPlainDef(f *engine.Fn, obj types.Object) ast.Expr {
+	if obj == nil {
+		return nil
+	}
+	rhs, ok := kcDefs(f, obj)
+	if !ok || len(rhs) != 1 {
+		return nil
+	}
+	info := f.Info()
+	plain := false
+	ast.Inspect(f.Root().Body, func(n ast.Node) bool {
+		switch x := n.(type) {
+		case *ast.AssignStmt:
+			if len(x.Lhs) == len(x.Rhs) {
+				for i, l := range x.Lhs {
+					if id, isID := ast.Unparen(l).(*ast.Ident); isID && info.ObjectOf(id) == obj && x.Rhs[i] == rhs[0] {
+						plain = true
+					}
+				}
+			}
+		case *ast.ValueSpec:
+			if len(x.Names) == len(x.Values) {
+				for i, id := range x.Names {
+					if info.ObjectOf(id) == obj && x.Values[i] == rhs[0] {
+						plain = true
+					}
+				}
+			}
+		}
+		return true
+	})
+	if !plain {
+		return nil
+	}
+	return rhs[0]
+}
+
+// kcPureBoolHelper: h's body is a sequence of plain local definitions followed
+// by a single `return E`; returns E and the substitution of h's locals.
+func kcPureReturn(h *engine.Fn) (ast.Expr, bool) {
+	if h == nil || h.Body == nil || len(h.Body.List) == 0 {
+		return nil, false
+	}
+	for _, st := range h.Body.List[:len(h.Body.List)-1] {
+		as, ok := st.(*ast.AssignStmt)
+		if !ok || as.Tok != token.DEFINE || len(as.Lhs) != len(as.Rhs) {
+			return nil, false
+		}
+	}
+	rs, ok := h.Body.List[len(h.Body.List)-1].(*ast.ReturnStmt)
+	if !ok || len(rs.Results) != 1 {
+		return nil, false
+	}
+	return rs.Results[0], true
+}
+
+// kcBindCall maps the parameters (and receiver) of h to the argument
+// expressions of call, and h's plain single-definition locals to their
+// (substituted) definitions, so that expressions of h can be rewritten in the
+// caller's terms.
+func kcBindCall(h *engine.Fn, call *ast.CallExpr, outer map[types.Object]ast.Expr) map[types.Object]ast.Expr {
+	m := map[types.Object]ast.Expr{}
+	info := h.Info()
+	kcSubstInfo2 = info
+	k := 0
+	if h.Type != nil && h.Type.Params != nil {
+		for _, fld := range h.Type.Params.List {
+			for _, nm := range fld.Names {
+				if k < len(call.Args) {
+					if o := info.ObjectOf(nm); o != nil {
+						m[o] = kcSubst(call.Args[k], outer)
+					}
+				}
+				k++
+			}
+		}
+	}
+	if r := kcRecv(h); r != nil {
+		if se, ok := ast.Unparen(call.Fun).(*ast.SelectorExpr); ok {
+			m[r] = kcSubst(se.X, outer)
+		}
+	}
+	// locals in source order
+	ast.Inspect(h.Body, func(n ast.Node) bool {
+		if _, isLit := n.(*ast.FuncLit); isLit {
+			return false
+		}
+		if as, ok := n.(*ast.AssignStmt); ok && as.Tok == token.DEFINE && len(as.Lhs) == len(as.Rhs) {
+			for i, l := range as.Lhs {
+				if id, isID := l.(*ast.Ident); isID {
+					o := info.ObjectOf(id)
+					if o != nil && kcPlainDef(h, o) == as.Rhs[i] {
+						m[o] = kcSubst(as.Rhs[i], m)
+					}
+				}
+			}
+		}
+		return true
+	})
+	return m
+}
+
+var kcSubstInfo, kcSubstInfo2 *types.Info
+
+// kcSubst clones e replacing identifiers bound in m by their expressions.
+// Leaves are shared with the original tree, so type information of leaves and
+// of callee identifiers stays available.
+func kcSubst(e ast.Expr, m map[types.Object]ast.Expr) ast.Expr {
+	if e == nil || len(m) == 0 {
+		return e
+	}
+	switch x := e.(type) {
+	case *ast.Ident:
+		for _, inf := range []*types.Info{kcSubstInfo, kcSubstInfo2} {
+			if inf == nil {
+				continue
+			}
+			if o := inf.ObjectOf(x); o != nil {
+				if r, ok := m[o]; ok {
+					return r
+				}
+			}
+		}
+		return x
+	case *ast.ParenExpr:
+		return &ast.ParenExpr{Lparen: x.Lparen, X: kcSubst(x.X, m), Rparen: x.Rparen}
+	case *ast.BinaryExpr:
+		return &ast.BinaryExpr{X: kcSubst(x.X, m), OpPos: x.OpPos, Op: x.Op, Y: kcSubst(x.Y, m)}
+	case *ast.UnaryExpr:
+		return &ast.UnaryExpr{OpPos: x.OpPos, Op: x.Op, X: kcSubst(x.X, m)}
+	case *ast.StarExpr:
+		return &ast.StarExpr{Star: x.Star, X: kcSubst(x.X, m)}
+	case *ast.SelectorExpr:
+		return &ast.SelectorExpr{X: kcSubst(x.X, m), Sel: x.Sel}
+	case *ast.IndexExpr:
+		return &ast.IndexExpr{X: kcSubst(x.X, m), Lbrack: x.Lbrack, Index: kcSubst(x.Index, m), Rbrack: x.Rbrack}
+	case *ast.SliceExpr:
+		return &ast.SliceExpr{X: kcSubst(x.X, m), Lbrack: x.Lbrack, Low: kcSubst(x.Low, m), High: kcSubst(x.High, m), Max: kcSubst(x.Max, m), Slice3: x.Slice3, Rbrack: x.Rbrack}
+	case *ast.TypeAssertExpr:
+		return &ast.TypeAssertExpr{X: kcSubst(x.X, m), Lparen: x.Lparen, Type: x.Type, Rparen: x.Rparen}
+	case *ast.CallExpr:
+		args := make([]ast.Expr, len(x.Args))
+		for i, a := range x.Args {
+			args[i] = kcSubst(a, m)
+		}
+		fun := x.Fun
+		if se, ok := fun.(*ast.SelectorExpr); ok {
+			fun = &ast.SelectorExpr{X: kcSubst(se.X, m), Sel: se.Sel}
+		}
+		return &ast.CallExpr{Fun: fun, Lparen: x.Lparen, Args: args, Ellipsis: x.Ellipsis, Rparen: x.Rparen}
+	}
+	return e
+}
+
+// kcExpandCond makes a boolean condition of fn helper-transparent: calls of
+// pure boolean helpers of the loaded program are replaced by their return
+// expression in fn's terms, plain single-definition boolean locals by their
+// definitions; &&, || and ! are traversed.
+func kcExpandCond(fn *engine.Fn, e ast.Expr, depth int) ast.Expr {
+	if e == nil || depth < 0 {
+		return e
+	}
+	info := fn.Info()
+	kcSubstInfo = info
+	switch x := ast.Unparen(e).(type) {
+	case *ast.BinaryExpr:
+		if x.Op == token.LAND || x.Op == token.LOR {
+			return &ast.BinaryExpr{X: kcExpandCond(fn, x.X, depth), OpPos: x.OpPos, Op: x.Op, Y: kcExpandCond(fn, x.Y, depth)}
+		}
+	case *ast.UnaryExpr:
+		if x.Op == token.NOT {
+			return &ast.UnaryExpr{OpPos: x.OpPos, Op: x.Op, X: kcExpandCond(fn, x.X, depth)}
+		}
+	case *ast.Ident:
+		if v, ok := info.ObjectOf(x).(*types.Var); ok && !v.IsField() && kcParamIndex(fn, v) < 0 && kcParamIndex(fn.Root(), v) < 0 {
+			if b, isB := v.Type().Underlying().(*types.Basic); isB && b.Kind() == types.Bool {
+				if d := kcPlainDef(fn, v); d != nil && depth > 0 {
+					return kcExpandCond(fn, d, depth-1)
+				}
+			}
+		}
+	case *ast.CallExpr:
+		if depth == 0 {
+			return e
+		}
+		var callee *types.Func
+		switch f := ast.Unparen(x.Fun).(type) {
+		case *ast.Ident:
+			callee, _ = info.Uses[f].(*types.Func)
+		case *ast.SelectorExpr:
+			callee, _ = info.Uses[f.Sel].(*types.Func)
+		}
+		h := fn.Prog.FnOf(callee)
+		if h == nil || h == fn {
+			return e
+		}
+		sig, _ := callee.Type().(*types.Signature)
+		if sig == nil || sig.Results().Len() != 1 {
+			return e
+		}
+		if b, isB := sig.Results().At(0).Type().Underlying().(*types.Basic); !isB || b.Kind() != types.Bool {
+			return e
+		}
+		ret, ok := kcPureReturn(h)
+		if !ok {
+			return e
+		}
+		m := kcBindCall(h, x, nil)
+		kcSubstInfo = info
+		inner := kcSubst(ret, m)
+		// the substituted expression may itself contain helper calls written in h
+		return kcExpandCond(fn, inner, depth-1)
+	}
+	return e
+}
+
+// kcDeep describes an inner site reached through helpers, with the means to
+// express the helper's expressions in the analysed function's terms.
+type kcDeep struct {
+	engine.DeepSite
+	F    *engine.Fn
+	bind map[types.Object]ast.Expr // inner function's params/locals -> outer terms (nil when direct)
+}
+
+// kcDeepCalls finds calls (direct or through in-program helpers, depth 2).
+func kcDeepCalls(f *engine.Fn, pats ...string) []kcDeep {
+	var out []kcDeep
+	for _, ds := range f.DeepCallsTo(2, pats...) {
+		out = append(out, kcMakeDeep(f, ds))
+	}
+	return out
+}
+
+func kcMakeDeep(f *engine.Fn, ds engine.DeepSite) kcDeep {
+	d := kcDeep{DeepSite: ds, F: f}
+	if ds.Inner == ds.Outer || len(ds.Chain) == 0 {
+		return d
+	}
+	kcSubstInfo = f.Info()
+	var m map[types.Object]ast.Expr
+	call := ds.Outer.Call
+	for i, h := range ds.Chain {
+		if call == nil {
+			break
+		}
+		m = kcBindCall(h, call, m)
+		if i+1 < len(ds.Chain) {
+			call = nil
+			for _, s := range h.Calls() {
+				if fn, _ := s.Callee.(*types.Func); fn != nil && h.Prog.FnOf(fn) == ds.Chain[i+1] {
+					call = s.Call
 					break
 				}
-				a = ast.Unparen(u.X)
-				v = !v
 			}
-			out = append(out, kcFact{a, v})
 		}
+	}
+	d.bind = m
+	return d
+}
+
+// Arg returns the i-th argument of the inner call in the outer function's terms.
+func (d kcDeep) Arg(i int) ast.Expr {
+	a := kcArg(d.Inner, i)
+	if a == nil {
+		return nil
+	}
+	kcSubstInfo = d.F.Info()
+	return kcSubst(a, d.bind)
+}
+
+// Expr rewrites an expression of the inner function in the outer function's terms.
+func (d kcDeep) Expr(e ast.Expr) ast.Expr {
+	kcSubstInfo = d.F.Info()
+	return kcSubst(e, d.bind)
+}
+
+// Facts returns the facts guaranteed at the inner site: those at the outer
+// site in F plus those inside each helper of the chain, rewritten in F's terms.
+func (d kcDeep) Facts() []kcFact {
+	out := kcFacts(d.F.Graph(), d.Outer)
+	if d.Inner == d.Outer || len(d.Chain) == 0 {
+		return out
+	}
+	kcSubstInfo = d.F.Info()
+	var m map[types.Object]ast.Expr
+	call := d.Outer.Call
+	for i, h := range d.Chain {
+		if call == nil {
+			break
+		}
+		m = kcBindCall(h, call, m)
+		var next *engine.Site
+		if i+1 < len(d.Chain) {
+			for _, s := range h.Calls() {
+				if fn, _ := s.Callee.(*types.Func); fn != nil && h.Prog.FnOf(fn) == d.Chain[i+1] {
+					next = s
+					break
+				}
+			}
+		} else {
+			next = d.Inner
+		}
+		if next == nil {
+			break
+		}
+		for _, ft := range kcFacts(h.Graph(), next) {
+			kcSubstInfo = d.F.Info()
+			out = append(out, kcFact{kcSubst(ft.Expr, m), ft.Val})
+		}
+		call = next.Call
 	}
 	return out
 }
@@ -373,12 +708,96 @@ func kcHasSameMethod(impl *types.Named, fn *types.Func) bool {
 // a subset of allow, and that every name in must occurs.
 func kcCallerTable(c *engine.Ctx, p *engine.Prog, rule, key string, refs []engine.Ref, allow, must []string) {
 	callers := engine.CallerSet(refs)
-	extra := engine.SetDiff(callers, allow)
+	extra := kcUnacceptedCallers(p, callers, allow)
 	kcAt(c, p, rule, key, token.NoPos, len(extra) == 0, "referenced from "+join(callers)+"; not in the confirmed table: "+join(extra))
-	missing := engine.SetDiff(must, callers)
+	var missing []string
+	for _, m := range engine.SetDiff(must, callers) {
+		if !kcReachesAny(p, m, callers, 3) {
+			missing = append(missing, m)
+		}
+	}
 	if len(missing) > 0 {
 		c.Undecided(rule, key+" (expected referrers)", "confirmed referrer(s) no longer present: "+join(missing)+" — table out of date")
 	}
+}
+
+// kcUnacceptedCallers returns the callers that are neither in the confirmed
+// table nor unexported helpers all of whose own referrers are (transitively)
+// in the table — extracting a block of an allowed function into an unexported
+// helper of the same package does not widen who may reach the construct.
+func kcUnacceptedCallers(p *engine.Prog, callers, allow []string) []string {
+	ok := map[string]bool{}
+	for _, a := range allow {
+		ok[a] = true
+	}
+	var accept func(name string, depth int, busy map[string]bool) bool
+	accept = func(name string, depth int, busy map[string]bool) bool {
+		if ok[name] {
+			return true
+		}
+		if depth == 0 || busy[name] {
+			return false
+		}
+		f := p.Func(name)
+		if f == nil || f.Obj == nil || f.Obj.Exported() {
+			return false
+		}
+		busy[name] = true
+		defer delete(busy, name)
+		refs := p.RefsTo(func(o types.Object) bool { return o == types.Object(f.Obj) })
+		if len(refs) == 0 {
+			return false
+		}
+		for _, r := range refs {
+			if r.Fn == nil {
+				return false
+			}
+			if r.Fn.Root() == f {
+				continue // recursion
+			}
+			if !accept(r.Fn.Root().Name, depth-1, busy) {
+				return false
+			}
+		}
+		return true
+	}
+	var extra []string
+	for _, cl := range callers {
+		if !accept(cl, 3, map[string]bool{}) {
+			extra = append(extra, cl)
+		}
+	}
+	return extra
+}
+
+// kcReachesAny: function `from` statically calls (within depth) one of the named functions.
+func kcReachesAny(p *engine.Prog, from string, targets []string, depth int) bool {
+	tg := map[string]bool{}
+	for _, t := range targets {
+		tg[t] = true
+	}
+	seen := map[*engine.Fn]bool{}
+	var walk func(f *engine.Fn, d int) bool
+	walk = func(f *engine.Fn, d int) bool {
+		if f == nil || seen[f] || d < 0 {
+			return false
+		}
+		seen[f] = true
+		for _, g := range append([]*engine.Fn{f}, f.AllLits()...) {
+			for _, s := range g.Calls() {
+				fn, _ := s.Callee.(*types.Func)
+				h := p.FnOf(fn)
+				if h == nil {
+					continue
+				}
+				if tg[h.Name] || walk(h, d-1) {
+					return true
+				}
+			}
+		}
+		return false
+	}
+	return walk(p.Func(from), depth)
 }
 
 // kcInTestSupport reports whether a function lives in a file that only
@@ -518,19 +937,7 @@ func kcTopPanicFacts(f *engine.Fn, exit *engine.Site, noRet ...string) []kcFact 
 		if !ok || kcIsCallTo(f.Info(), call, noRet...) == nil {
 			continue
 		}
-		for _, a := range engine.Conjuncts(is.Cond, token.LOR) {
-			v := false
-			a = ast.Unparen(a)
-			for {
-				u, ok := a.(*ast.UnaryExpr)
-				if !ok || u.Op != token.NOT {
-					break
-				}
-				a = ast.Unparen(u.X)
-				v = !v
-			}
-			out = append(out, kcFact{a, v})
-		}
+		out = append(out, kcSplitFacts(kcExpandCond(f, is.Cond, 3), false)...)
 	}
 	return out
 }
@@ -620,4 +1027,139 @@ func kcIsSignerAccs(f *engine.Fn, obj types.Object) bool {
 		return false
 	}
 	return kcIsSignersSlice(f, engine.ObjOf(info, lc.Args[0]))
+}
+
+// kcCmpAny applies m to a comparison expression in both operand orientations
+// (operands are passed un-parenthesised).
+func kcCmpAny(e ast.Expr, m func(x, y ast.Expr, op token.Token) bool) bool {
+	b, ok := ast.Unparen(e).(*ast.BinaryExpr)
+	if !ok {
+		return false
+	}
+	switch b.Op {
+	case token.LSS, token.GTR, token.LEQ, token.GEQ, token.EQL, token.NEQ:
+		return m(ast.Unparen(b.X), ast.Unparen(b.Y), b.Op) || m(ast.Unparen(b.Y), ast.Unparen(b.X), engine.Flip(b.Op))
+	}
+	return false
+}
+
+// kcFalseConj: some gate is passed on its FALSE branch and its (helper-
+// transparent) condition is exactly the conjunction of the given predicates,
+// in any order — i.e. the site is unreachable when all of them hold, and the
+// rejection is not weakened by a further conjunct.
+func kcFalseConj(gates []engine.Gate, preds ...func(ast.Expr) bool) bool {
+	for _, gt := range gates {
+		if gt.OnTrue {
+			continue
+		}
+		cj := engine.Conjuncts(gt.Cond, token.LAND)
+		if len(cj) != len(preds) {
+			continue
+		}
+		used := make([]bool, len(cj))
+		all := true
+		for _, p := range preds {
+			hit := false
+			for i, e := range cj {
+				if !used[i] && p(ast.Unparen(e)) {
+					used[i], hit = true, true
+					break
+				}
+			}
+			if !hit {
+				all = false
+				break
+			}
+		}
+		if all {
+			return true
+		}
+	}
+	return false
+}
+
+// kcConstString / kcConstIs: constant value of an expression (literal or named constant).
+func kcConstIs(info *types.Info, e ast.Expr, exact string) bool {
+	if tv, ok := info.Types[ast.Unparen(e)]; ok && tv.Value != nil {
+		return tv.Value.ExactString() == exact
+	}
+	if bl, ok := ast.Unparen(e).(*ast.BasicLit); ok {
+		return bl.Value == exact
+	}
+	return false
+}
+
+// kcMethodCallOn: e is <x>.<method>(...) ; returns x.
+func kcMethodCallOn(e ast.Expr, method string) (ast.Expr, bool) {
+	call, ok := ast.Unparen(e).(*ast.CallExpr)
+	if !ok {
+		return nil, false
+	}
+	se, ok := call.Fun.(*ast.SelectorExpr)
+	if !ok || se.Sel.Name != method {
+		return nil, false
+	}
+	return ast.Unparen(se.X), true
+}
+
+// kcHelperPropagatesErr: for a call reached through one helper whose last
+// result is an error, every return of the helper with a nil last result is on
+// the success side of the inner call's error test, or the helper simply
+// returns the inner call.
+func kcHelperPropagatesErr(d kcDeep) bool {
+	if len(d.Chain) != 1 {
+		return false
+	}
+	h := d.Chain[0]
+	g := h.Graph()
+	for _, ex := range kcNormalExits(h) {
+		rs, ok := ex.Node.(*ast.ReturnStmt)
+		if !ok || len(rs.Results) == 0 {
+			return false
+		}
+		last := ast.Unparen(rs.Results[len(rs.Results)-1])
+		if last == ast.Expr(d.Inner.Call) {
+			continue
+		}
+		if !isNil(last) {
+			continue // some error is returned
+		}
+		if !g.Dominates(d.Inner, ex) {
+			continue // exit taken before the inner call is ever reached (e.g. nothing to do)
+		}
+		r := g.CheckedGuard(d.Inner, ex)
+		if !r.OK || !c09errNilSide(r) || len(engine.Atoms(r.Cond)) != 1 {
+			return false
+		}
+	}
+	return true
+}
+
+// kcOwnerRoot: if fn is an unexported function all of whose references come
+// (transitively) from one single other function, return that function — a
+// private helper extracted from it; otherwise fn itself.
+func kcOwnerRoot(p *engine.Prog, fn *engine.Fn, depth int) *engine.Fn {
+	if fn == nil || fn.Obj == nil || fn.Obj.Exported() || depth == 0 {
+		return fn
+	}
+	refs := p.RefsTo(func(o types.Object) bool { return o == types.Object(fn.Obj) })
+	var owner *engine.Fn
+	for _, r := range refs {
+		if r.Fn == nil {
+			return fn
+		}
+		root := r.Fn.Root()
+		if root == fn {
+			continue
+		}
+		root = kcOwnerRoot(p, root, depth-1)
+		if owner != nil && owner != root {
+			return fn
+		}
+		owner = root
+	}
+	if owner == nil {
+		return fn
+	}
+	return owner
 }
